@@ -14,7 +14,7 @@ CLIENT_ID = b"IOS02ac6d28-42d0-41e3-ad22-274d0aa491da"
 
 
 class TRig:
-    def __init__(self, r, snapshot="default.snapshot", sim_cls=None):
+    def __init__(self, r, snapshot="default.snapshot", sim_cls=None, snapshot_obj=None):
         from geckolib.utils.snapshot import GeckoSnapshot
 
         from . import contracts
@@ -25,7 +25,7 @@ class TRig:
         self.sim = quiet_simulator(sim_cls)
         path = snapshot if os.path.isabs(snapshot) else os.path.join(snapshot_dir(), snapshot)
         with contextlib.redirect_stdout(io.StringIO()):
-            self.sim.set_snapshot(GeckoSnapshot.parse_log_file(path)[0])
+            self.sim.set_snapshot(snapshot_obj if snapshot_obj is not None else GeckoSnapshot.parse_log_file(path)[0])
         self.sim_sock = self.net.socket(("10.0.0.1", 10022))
         self.sim._socket._socket = self.sim_sock
         self.sim._socket.open()
